@@ -202,3 +202,70 @@ def complex_shift_backtransform_defined_at_zero(ctx, rule='back-transformation-d
                   '; '.join(problems) + ': a real eigenvalue equal to Re(sigma) (identity with sigmar = 1, zero matrix with sigmar = 0) gives inf - inf = NaN eigenvalues with info() == Successful')
     if ndiv < 2:
         raise AnalysisBroken('only %d division(s) by the Ritz value found in the complex-shift back-transformation' % ndiv)
+
+
+def complex_shift_double_root_avoided(ctx, rule='back-transformation-conditioned-at-the-double-root'):
+    """lambda = sigmar + (1 +- sqrt(1 - 4 sigmai^2 nu^2)) / (2 nu): where the discriminant vanishes -- an eigenvalue at distance
+    |Im sigma| from Re sigma, which the quantifier of C02 names -- d lambda / d nu is unbounded and the square root returns
+    only half of the digits of nu: the eigenvalue comes back with an error of sqrt(eps) |sigmai| (4e-8 for O(1) matrices,
+    whatever the tolerance), and the residual of the returned pair with it.  The member already computes inv(A - r I) v for a real
+    probe shift r to choose between the roots; v^H v / v^H inv(A - r I) v = lambda - r gives the eigenvalue without a square
+    root.  Structural condition: the value stored as the Ritz value is, under a test that the discriminant is small, assigned
+    from an expression that involves the probe products and neither the discriminant nor the roots."""
+    fns = ctx.F.insts('Spectra::GenEigsComplexShiftSolver::sort_ritzpair')
+    if not fns:
+        raise AnalysisBroken('GenEigsComplexShiftSolver::sort_ritzpair not instantiated')
+    for fn in fns[:2]:
+        raw = set(fn.locals[d['var']]['name'] for x in fn.walk() if x['k'] == 'DeclStmt' for d in x['decls']
+                  if 'init' in d and sym(fn, d['init'], inline=False)[:2] == ('[]', ('F', 'm_ritz_val')))
+        decls = {fn.locals[d['var']]['name']: sym(fn, d['init'], inline=False) for x in fn.walk() if x['k'] == 'DeclStmt' for d in x['decls'] if 'init' in d}
+        disc = [nm for nm, t in decls.items() if 'sqrt(' in show(t) and _mentions(fn, t, raw) and 'sigmai' in show(t)]
+        if not disc:
+            raise AnalysisBroken('%s: discriminant of the back-transformation not found' % fn.qname)
+        dep_on_disc = set(disc)
+        changed = True
+        while changed:
+            changed = False
+            for nm, t in decls.items():
+                if nm not in dep_on_disc and any(('L', d_) in _atoms(t) for d_ in dep_on_disc):
+                    dep_on_disc.add(nm)
+                    changed = True
+        # the variable stored into the Ritz value
+        stores = [sym(fn, x, inline=False) for x in fn.walk() if x['k'] in ('CXXOperatorCallExpr', 'BinaryOperator') and x.get('op') == '=' and
+                  sym(fn, x, inline=False)[1][:2] == ('[]', ('F', 'm_ritz_val'))]
+        held = set(t[2][1] for t in stores if t[2][0] == 'L')
+        # accumulators fed by the probe products
+        probe = set()
+        for x in fn.walk():
+            if x['k'] in ('CompoundAssignOperator', 'CXXOperatorCallExpr') and x.get('op') == '+=':
+                t = sym(fn, x, inline=False)
+                if t[1][0] == 'L' and 'OPv' in show(t[2]):
+                    probe.add(t[1][1])
+        ok, why = False, 'no assignment of the stored eigenvalue avoids the square root'
+        for x in fn.walk():
+            if x['k'] not in ('CXXOperatorCallExpr', 'BinaryOperator') or x.get('op') != '=':
+                continue
+            t = sym(fn, x, inline=False)
+            if t[1][0] != 'L' or t[1][1] not in held:
+                continue
+            at = _atoms(t[2])
+            if any(('L', d_) in at for d_ in dep_on_disc) or not any(('L', p_) in at for p_ in probe):
+                continue
+            conds = [show(sym(fn, i['cond'], inline=False)) for i in fn.ancestors(x) if i['k'] == 'IfStmt' and fn.within(x, i['then'])]
+            if any(('abs(%s)' % d_) in c and '<' in c for c in conds for d_ in disc):
+                ok, why = True, '`%s` under `%s`' % (fn.s(x)[:50], conds[0][:80])
+        ctx.check(ok, rule, 'GenEigsComplexShiftSolver::sort_ritzpair', fn.qname,
+                  'near the double root the eigenvalue is taken from the probe solve: %s' % why if ok else
+                  'the eigenvalue is always returned as a root (1 +- %s) / (2 nu) of the quadratic: where the discriminant vanishes (an eigenvalue at distance |Im sigma| from Re sigma) '
+                  'half of the digits are lost, the pair comes back with an error of sqrt(eps) |sigmai| whatever the tolerance; %s' % (disc[0], why))
+
+
+def _atoms(t):
+    out = set()
+    if isinstance(t, tuple):
+        if t[0] in ('L', 'F', 'P'):
+            out.add(t)
+        else:
+            for u in t[1:]:
+                out |= _atoms(u)
+    return out
